@@ -18,6 +18,15 @@ BUILT = {
             "instances under 3 (quick) / 12 (thorough) option configurations; decode must equal what was written",
             E1_NOTE, "DESIGN.md section 6, C01"),
     # id: (category, technique, level text, level note, design ref)
+    "C02": ("model_checking",
+            "bounded-exhaustive enumeration of address shapes (base x index x scale x displacement class x factor order x "
+            "size keyword) under one representative per encoding path and every memory-taking mnemonic, 4 SIB "
+            "configurations, on the real assembler; decoded linear address form compared with the written one",
+            "quick: a 3.6k-shape class grid x 42 representative forms + every mnemonic over key shapes (0.6M executions); "
+            "thorough: the full 33x33 register grid x 5 scales x 19 displacements (6M lines, 24M executions); ModRM/SIB/"
+            "displacement/address-size/access-width are compared as linear forms so that only address-preserving "
+            "rewritings are accepted",
+            E1_NOTE, "DESIGN.md section 6, C02"),
     "C03": ("model_checking",
             "bounded-exhaustive enumeration of immediate forms x destination kinds x boundary values x spellings x 3 "
             "mov-immediate modes on the real assembler, decode-and-compare; plus execution of `mov r, v; ret` for every "
